@@ -705,3 +705,31 @@ def np_vstack(eng, st, args, kwargs):
             r = ite(lt(i, add(o, b.shape[0])), b.at(sub(i, o), j), r)
         return r
     yield new_ref(st, ArrV((total, w), at, blocks[0].dtype if all(b.dtype == blocks[0].dtype for b in blocks) else 'real')), st
+
+
+@lib('numpy.concatenate', 'numpy.hstack')
+def np_concatenate(eng, st, args, kwargs):
+    if len(args) > 1 or kwargs:
+        raise OutOfSubset('np.concatenate with axis')
+    parts = calls.seq_items(eng, args[0], st)
+    blocks = []
+    for p in parts:
+        a = arr_of(eng, st, p)
+        if a is None:
+            a = ArrV((1,), lambda i, p=p: p, 'real')        # hstack of a scalar
+        if a.ndim != 1:
+            raise OutOfSubset('concatenate of 2-D arrays')
+        blocks.append(a)
+    total = 0
+    offs = []
+    for b in blocks:
+        offs.append(total)
+        total = add(total, b.shape[0])
+
+    def at(i, blocks=blocks, offs=offs):
+        r = blocks[-1].at(sub(i, offs[-1]))
+        for b, o in reversed(list(zip(blocks[:-1], offs[:-1]))):
+            r = ite(lt(i, add(o, b.shape[0])), b.at(sub(i, o)), r)
+        return r
+    dt = blocks[0].dtype if all(b.dtype == blocks[0].dtype for b in blocks) else 'real'
+    yield new_ref(st, ArrV((total,), at, dt)), st
